@@ -101,6 +101,16 @@ pub fn gen_case(seed: u64, idx: u64, uni: &UniCfg) -> Case {
                 OpSpec::new(Op::RemoveAll { path: p })
             }
         })
+        .map(|o| {
+            // byte strings with an embedded NUL are not paths in the sense of this
+            // property (no system call can take them; both backends refuse them,
+            // at different points of the walk): C03/C13 generate them, C04 does not
+            if o.to_json().to_string().contains("\\u0000") {
+                OpSpec::new(Op::Resolve { path: "a".into(), nofollow: false })
+            } else {
+                o
+            }
+        })
         .collect();
     c.world = Some(world);
     c.jobs = vec![ops];
